@@ -114,7 +114,12 @@ def st_run(draw) -> Dict[str, Any]:
     every = draw(st.sampled_from([dt // 2 + 1, dt, 2 * dt + 7, 900]))
     reqs = [{"id": f"r{j}", "o": draw(site), "d": draw(site), "t": start + j * every + 13, "pax": 1, "fleet": None} for j in range(min(400, nsteps * dt // every))]
     return {"dt": dt, "start": start, "nsteps": nsteps, "sites": sites, "schedules": schedules, "bases": bases, "stations": stations, "vehicles": vehicles, "requests": reqs,
-            "idle_timeout": draw(st.sampled_from([1800, 600]))}
+            "idle_timeout": draw(st.sampled_from([1800, 600])),
+            # which activities the dispatcher may take vehicles from is configuration (the shipped Manhattan scenario
+            # includes vehicles charging at their base - where off-shift human drivers spend their time)
+            "dispatch_states": draw(st.sampled_from([["idle", "repositioning", "reservebase", "dispatchbase"],
+                                                     ["idle", "repositioning", "reservebase", "dispatchbase", "chargingbase", "chargingstation"],
+                                                     ["idle", "repositioning"]]))}
 
 
 def check_run(case: Dict[str, Any]) -> Tuple[List[Violation], Set[str], Dict[str, int]]:
@@ -127,7 +132,7 @@ def check_run(case: Dict[str, Any]) -> Tuple[List[Violation], Set[str], Dict[str
     dt, start, nsteps = case["dt"], case["start"], case["nsteps"]
     w = {"net": "hav", "graph": None, "sites": case["sites"],
          "sim": {"start_time": start, "timestep_duration_seconds": dt, "request_cancel_time_seconds": 900, "sim_h3_search_resolution": 7, "end_time": start + dt * (nsteps + 2)},
-         "dispatcher": {"max_search_radius_km": 5.0, "idle_time_out_seconds": case["idle_timeout"], "valid_dispatch_states": ["idle", "repositioning", "reservebase", "dispatchbase"]},
+         "dispatcher": {"max_search_radius_km": 5.0, "idle_time_out_seconds": case["idle_timeout"], "valid_dispatch_states": case.get("dispatch_states", ["idle", "repositioning", "reservebase", "dispatchbase"])},
          "fleet_ids": [], "vehicles": case["vehicles"], "stations": case["stations"], "bases": case["bases"], "requests": case["requests"],
          "schedules": [s[:3] for s in case["schedules"]], "prices": None, "rate": [2.0, 1.0, 3.0], "lazy": False}
     shift = {}
